@@ -198,10 +198,34 @@ def eval_classspec(case):
     for n in NAMES:
         if (I[n] in sB) != (n in got):
             return ('classspec-contains', n)
+    # membership is about the interfaces iteration yields: a class specification
+    # that is a *base* of a declaration is not one of them
+    probes = [('sA in sB', sA, sB), ('sA in Declaration(sA, J)', sA, Declaration(sA, I['J'])),
+              ('sB in Declaration(J, sB)', sB, Declaration(I['J'], sB))]
+    for label, x, d in probes:
+        if (x in d) is not False or any(y is x for y in d):
+            return ('class-specification-counts-as-a-member', label)
+    if not only:
+        # the documented way of keeping what a class lists while cutting it off
+        # from its bases; what implementedBy(B) stands for is flattened in place
+        for x in NAMES:
+            for first in (False, True):
+                newB = type('B2', (A,), {})
+                if db:
+                    classImplements(newB, *[I[y] for y in db])
+                before2 = nm(implementedBy(newB))
+                args = [I[x], implementedBy(newB)] if first else [implementedBy(newB), I[x]]
+                classImplementsOnly(newB, *args)
+                want = dedupe(([x] + before2) if first else (before2 + [x]))
+                if nm(implementedBy(newB)) != want:
+                    return ('classImplementsOnly-with-own-specification-order', da, db, x, first,
+                            nm(implementedBy(newB)), want)
     b = B()
     if direct:
         directlyProvides(b, *[I[x] for x in direct])
         p = providedBy(b)
+        if (sB in p) is not False:
+            return ('class-specification-counts-as-a-member', 'implementedBy(type(ob)) in providedBy(ob)')
         got_p = nm(p)
         dp = nm(directlyProvidedBy(b))
         kept = [x for x in direct if not any(ext(y, x) for y in got)]
